@@ -61,60 +61,73 @@ fn rd_c<E: Event + Clone>(
 struct Link {
     server: App,
     client: App,
+    /// two more connected clients: broadcasts go to all three, so that the server's send loop
+    /// works on several connections at once
+    peers: Vec<App>,
+}
+
+fn make_app(is_client: bool) -> App {
+    let mut app = App::new();
+    app.add_plugins((
+        MinimalPlugins,
+        RepliconPlugins
+            .set(ServerPlugin { tick_policy: TickPolicy::Manual, ..Default::default() })
+            .set(RepliconSharedPlugin { auth_method: AuthMethod::None }),
+        RepliconExampleBackendPlugins,
+    ))
+    .init_resource::<Log>()
+    .add_server_event::<S0>(Channel::Ordered)
+    .add_server_event::<S1>(Channel::Ordered)
+    .add_server_event::<S2>(Channel::Ordered)
+    .make_event_independent::<S0>()
+    .make_event_independent::<S1>()
+    .make_event_independent::<S2>()
+    .add_client_event::<C0>(Channel::Ordered)
+    .add_client_event::<C1>(Channel::Ordered)
+    .add_client_event::<C2>(Channel::Ordered);
+    if is_client {
+        app.add_systems(
+            Update,
+            (
+                rd_s::<S0>(0, |e| (e.seq, &e.blob)),
+                rd_s::<S1>(1, |e| (e.seq, &e.blob)),
+                rd_s::<S2>(2, |e| (e.seq, &e.blob)),
+            ),
+        );
+    } else {
+        app.add_systems(
+            Update,
+            (
+                rd_c::<C0>(0, |e| (e.seq, &e.blob)),
+                rd_c::<C1>(1, |e| (e.seq, &e.blob)),
+                rd_c::<C2>(2, |e| (e.seq, &e.blob)),
+            ),
+        );
+    }
+    app.finish();
+    app
 }
 
 fn build() -> Link {
-    let mut server = App::new();
-    let mut client = App::new();
-    for app in [&mut server, &mut client] {
-        app.add_plugins((
-            MinimalPlugins,
-            RepliconPlugins
-                .set(ServerPlugin { tick_policy: TickPolicy::Manual, ..Default::default() })
-                .set(RepliconSharedPlugin { auth_method: AuthMethod::None }),
-            RepliconExampleBackendPlugins,
-        ))
-        .init_resource::<Log>()
-        .add_server_event::<S0>(Channel::Ordered)
-        .add_server_event::<S1>(Channel::Ordered)
-        .add_server_event::<S2>(Channel::Ordered)
-        .make_event_independent::<S0>()
-        .make_event_independent::<S1>()
-        .make_event_independent::<S2>()
-        .add_client_event::<C0>(Channel::Ordered)
-        .add_client_event::<C1>(Channel::Ordered)
-        .add_client_event::<C2>(Channel::Ordered);
-    }
-    client.add_systems(
-        Update,
-        (
-            rd_s::<S0>(0, |e| (e.seq, &e.blob)),
-            rd_s::<S1>(1, |e| (e.seq, &e.blob)),
-            rd_s::<S2>(2, |e| (e.seq, &e.blob)),
-        ),
-    );
-    server.add_systems(
-        Update,
-        (
-            rd_c::<C0>(0, |e| (e.seq, &e.blob)),
-            rd_c::<C1>(1, |e| (e.seq, &e.blob)),
-            rd_c::<C2>(2, |e| (e.seq, &e.blob)),
-        ),
-    );
-    server.finish();
-    client.finish();
+    let mut server = make_app(false);
+    let mut client = make_app(true);
+    let mut peers = vec![make_app(true), make_app(true)];
     let sock = ExampleServer::new(0).expect("bind");
     let port = sock.local_addr().unwrap().port();
-    let csock = ExampleClient::new(port).expect("connect");
     server.insert_resource(sock);
-    client.insert_resource(csock);
-    for _ in 0..4 {
+    client.insert_resource(ExampleClient::new(port).expect("connect"));
+    for p in peers.iter_mut() {
+        p.insert_resource(ExampleClient::new(port).expect("connect"));
+    }
+    for _ in 0..6 {
         server.update();
         client.update();
+        for p in peers.iter_mut() { p.update(); }
         std::thread::sleep(std::time::Duration::from_millis(2));
     }
     assert!(client.world().resource::<RepliconClient>().is_connected());
-    Link { server, client }
+    for p in peers.iter() { assert!(p.world().resource::<RepliconClient>().is_connected()); }
+    Link { server, client, peers }
 }
 
 thread_local! {
@@ -162,32 +175,35 @@ pub fn exec(line: &str, out: &mut Out) {
             *l = Some(build());
         }
         let link = l.as_mut().unwrap();
-        let (tx, rx) = if s2c { (&mut link.server, &mut link.client) } else { (&mut link.client, &mut link.server) };
+        let Link { server, client, peers } = link;
+        let (tx, rx) = if s2c { (server, client) } else { (client, server) };
         rx.world_mut().resource_mut::<Log>().0.clear();
+        for p in peers.iter_mut() { p.world_mut().resource_mut::<Log>().0.clear(); }
         for b in &batches {
             for &(ch, seq, size) in b {
                 send(tx, s2c, ch, seq, size);
             }
             tx.update();
         }
-        // receiver frames until everything arrived (loopback delivery is asynchronous)
         let mut frames = 0;
         let mut first_pass = 0;
         while frames < 400 {
             rx.update();
+            for p in peers.iter_mut() { p.update(); }
             frames += 1;
             let n = rx.world().resource::<Log>().0.len();
             if frames == 1 {
                 first_pass = n;
             }
-            if n >= total {
+            let peers_done = !s2c || peers.iter().all(|p| p.world().resource::<Log>().0.len() >= total);
+            if n >= total && peers_done {
                 break;
             }
             std::thread::sleep(std::time::Duration::from_micros(200));
         }
-        // a few more frames: nothing may arrive twice
         for _ in 0..2 {
             rx.update();
+            for p in peers.iter_mut() { p.update(); }
         }
         let log = &rx.world().resource::<Log>().0;
         let mut parts = Vec::new();
@@ -195,7 +211,18 @@ pub fn exec(line: &str, out: &mut Out) {
             let seqs: Vec<String> = log.iter().filter(|e| e.0 == ch).map(|e| e.1.to_string()).collect();
             parts.push(format!("ch{ch}={}", if seqs.is_empty() { "-".to_string() } else { seqs.join(",") }));
         }
-        let intact = log.iter().all(|e| e.3);
+        let mut intact = log.iter().all(|e| e.3);
+        // the other clients of a broadcast: the same sequences, in order
+        if s2c {
+            for (i, p) in peers.iter().enumerate() {
+                let plog = &p.world().resource::<Log>().0;
+                intact &= plog.iter().all(|e| e.3);
+                for ch in 0..3u8 {
+                    let seqs: Vec<String> = plog.iter().filter(|e| e.0 == ch).map(|e| e.1.to_string()).collect();
+                    parts.push(format!("p{}ch{ch}={}", i + 1, if seqs.is_empty() { "-".to_string() } else { seqs.join(",") }));
+                }
+            }
+        }
         writeln!(out, "= {} intact={} first_pass={} frames={}", parts.join(" "), intact as u8, first_pass, frames).unwrap();
     });
 }
